@@ -203,8 +203,8 @@ def diag_lint_ob(prog):
                         n_sites += 1
                         if "Diag" not in cls.name:
                             bad.append(f"{prog.relpath(mod)}:{n.lineno}: invert_diagonal used in {cls.name}, whose matrices are not documented diagonal")
-        if n_sites < 5:
-            raise Undecided(f"only {n_sites} invert_diagonal call sites (floor 5)")
+        if n_sites < 1:
+            raise Undecided(f"no invert_diagonal call site found (anchor vanished)")
         if bad:
             raise Refuted("; ".join(bad), bad[0].split(":")[0])
         return [], dict(sites=n_sites)
